@@ -262,26 +262,70 @@ func runC13(e *env) error {
 	}
 	// pinned termination hazards, through the binary under a time limit: recursive generic types (also spelled
 	// differently in two packages), mutually recursive generics, recursive slice / pointer / map types, deep nesting
-	for hi, hz := range hazardProjects() {
-		for gi, g := range []string{"", "skipCopySameType", "useUnderlyingTypeMethods", "useZeroValueOnPointerInconsistency", "ignoreMissing"} {
-			root := filepath.Join(base, fmt.Sprintf("hz%d_%d", hi, gi))
-			if err := scratch.Write(root, hz.tree); err != nil {
-				return err
+	type hzJob struct {
+		hz   hazard
+		g    string
+		root string
+		args []string
+		res  *scratch.Result
+	}
+	var hzJobs []*hzJob
+	globals := []string{"", "skipCopySameType", "useUnderlyingTypeMethods", "useZeroValueOnPointerInconsistency", "ignoreMissing"}
+	hzs := hazardProjects()
+	for hi, hz := range hzs {
+		for gi, g := range globals {
+			hzJobs = append(hzJobs, &hzJob{hz: hz, g: g, root: filepath.Join(base, fmt.Sprintf("hz%d_%d", hi, gi))})
+		}
+	}
+	// self-referential named types through every composition of pointer, slice, array and map constructors (depth 1-2),
+	// mutually recursive and generic variants: quick runs them without a global setting, thorough with each
+	for hi, hz := range recursiveTypeProjects() {
+		gs := globals[:1]
+		if e.thorough {
+			gs = globals
+		}
+		for gi, g := range gs {
+			hzJobs = append(hzJobs, &hzJob{hz: hz, g: g, root: filepath.Join(base, fmt.Sprintf("rt%d_%d", hi, gi))})
+		}
+	}
+	var hwg sync.WaitGroup
+	hsem := make(chan struct{}, 8)
+	var hzErr error
+	var hmu sync.Mutex
+	for _, j := range hzJobs {
+		hwg.Add(1)
+		go func(j *hzJob) {
+			defer hwg.Done()
+			hsem <- struct{}{}
+			defer func() { <-hsem }()
+			if err := scratch.Write(j.root, j.hz.tree); err != nil {
+				hmu.Lock()
+				hzErr = err
+				hmu.Unlock()
+				return
 			}
-			args := []string{"gen"}
-			if g != "" {
-				args = append(args, "-g", g)
+			j.args = []string{"gen"}
+			if j.g != "" {
+				j.args = append(j.args, "-g", j.g)
 			}
-			args = append(args, "./...")
-			res := scratch.Run(bin, root, args, nil, 25*time.Second)
-			e.rep.Eval(1)
-			e.rep.Nontrivial("hazard:" + hz.name + ":" + g)
-			e.rep.Count(fmt.Sprintf("hazard.exit%d", res.Exit))
-			if res.TimedOut || (res.Exit != 0 && res.Exit != 1) {
-				e.rep.Violation("hang-or-panic:"+hz.name, map[string]any{"project": hz.tree, "args": args, "exit": res.Exit, "timed_out": res.TimedOut,
-					"stderr": truncate(res.Stderr, 2000), "broken": "C13: the goverter binary panicked or did not terminate within 25 s"}, false)
-			}
-			_ = os.RemoveAll(root)
+			j.args = append(j.args, "./...")
+			r := scratch.Run(bin, j.root, j.args, nil, 40*time.Second)
+			j.res = &r
+			_ = os.RemoveAll(j.root)
+		}(j)
+	}
+	hwg.Wait()
+	if hzErr != nil {
+		return hzErr
+	}
+	for _, j := range hzJobs {
+		res := j.res
+		e.rep.Eval(1)
+		e.rep.Nontrivial("hazard:" + j.hz.name + ":" + j.g)
+		e.rep.Count(fmt.Sprintf("hazard.exit%d", res.Exit))
+		if res.TimedOut || (res.Exit != 0 && res.Exit != 1) {
+			e.rep.Violation("hang-or-panic:"+j.hz.name, map[string]any{"project": j.hz.tree, "args": j.args, "exit": res.Exit, "timed_out": res.TimedOut,
+				"stderr": truncate(res.Stderr, 2000), "broken": "C13: the goverter binary panicked or did not terminate within 40 s"}, false)
 		}
 	}
 	return nil
@@ -290,6 +334,36 @@ func runC13(e *env) error {
 type hazard struct {
 	name string
 	tree scratch.Tree
+}
+
+// recursiveTypeProjects: `type L <c1><c2>L` for every composition of type constructors through which Go allows a type to
+// refer to itself (at least one pointer, slice or map on the way), converted to a second type of the same shape; mutual
+// and generic variants of the array shapes.
+func recursiveTypeProjects() []hazard {
+	mod := func(src string) scratch.Tree {
+		return scratch.Tree{"go.mod": "module example.org/hz\n\ngo 1.18\n", "p/p.go": src}
+	}
+	conv := func(s, t string) string {
+		return "\n// goverter:converter\ntype C interface {\n\tConvert(source " + s + ") " + t + "\n}\n"
+	}
+	ctors := []string{"*", "[]", "[2]", "map[string]", "map[int]"}
+	indirect := func(c string) bool { return c != "[2]" }
+	var out []hazard
+	for _, c1 := range ctors {
+		for _, c2 := range ctors {
+			if !indirect(c1) && !indirect(c2) {
+				continue
+			}
+			sh := c1 + c2
+			out = append(out, hazard{"recursive-type:" + sh, mod("package p\n\ntype L " + sh + "L\ntype M " + sh + "M\n" + conv("L", "M"))})
+		}
+	}
+	for _, c := range []string{"*", "[]", "map[int]"} {
+		out = append(out, hazard{"recursive-type-field:[2]" + c, mod("package p\n\ntype L [2]" + c + "L\ntype M [2]" + c + "M\ntype In struct{ X L }\ntype Out struct{ X M }\n" + conv("In", "Out"))})
+		out = append(out, hazard{"recursive-type-mutual:[2]" + c, mod("package p\n\ntype L [2]" + c + "L2\ntype L2 [3]" + c + "L\ntype M [2]" + c + "M2\ntype M2 [3]" + c + "M\n" + conv("L", "M"))})
+		out = append(out, hazard{"recursive-type-generic:[2]" + c, mod("package p\n\ntype L[X any] [2]" + c + "L[X]\ntype M[X any] [2]" + c + "M[X]\n" + conv("L[int]", "M[int]"))})
+	}
+	return out
 }
 
 func hazardProjects() []hazard {
